@@ -21,9 +21,11 @@ LONG = dict(effects=0.2, enqueue=0.15, nops=120, stop=0.1)
 PROFILES = {
     'C01': [(['m01', 'm02', 'm03', 'm05', 'm09', 'm10'], PLAIN, 150, 1500, None),
             (['m02', 'm03'], FXL, 60, 600, None)],
-    'C02': [(['m01', 'm02', 'm03', 'm04', 'm05', 'm06', 'm10'], PLAIN, 120, 1200, None),
+    'C02': [(['m01', 'm02', 'm03', 'm04', 'm05', 'm06', 'm10', 'm17'], PLAIN, 120, 1200, None),
             (['m01', 'm03', 'm05'], FXL, 60, 600, None)],
     'C04': [(['m01', 'm02', 'm03', 'm06', 'm07', 'm11'], FX, 150, 1500, None),
+            # submissions from exception_caught / no_transition: failpoints + effects attached to those callbacks
+            (['m01', 'm02', 'm03', 'm06', 'm11', 'm17'], dict(effects=0.5, enqueue=0.1, fail=0.5, effect_kinds='CTGAN'), 100, 1000, None),
             (['m05', 'm08', 'm12', 'm13'], FX, 80, 800, None)],
     'C05': [(['m07', 'm11'], FX, 250, 2500, None),
             (['m12'], FX, 250, 2500, None),
@@ -36,11 +38,11 @@ PROFILES = {
             (['m04'], FXL, 100, 1000, None)],
     'C09': [(['m05'], PLAIN, 400, 4000, None),
             (['m05'], FXL, 150, 1500, None)],
-    'C10': [(['m06', 'm11'], FX, 250, 2500, None),
-            (['m06', 'm11'], PLAIN, 100, 1000, None)],
+    'C10': [(['m06', 'm11', 'm17'], FX, 250, 2500, None),
+            (['m06', 'm11', 'm17'], PLAIN, 100, 1000, None)],
     'C11': [(['m08'], FX, 300, 3000, None),
             (['m08'], dict(effects=0.2, enqueue=0.2, nops=80, stop=0.2), 60, 600, None)],
-    'C12': [(['m01', 'm02', 'm03', 'm05', 'm06', 'm07', 'm11'], FAIL, 120, 1200, None),
+    'C12': [(['m01', 'm02', 'm03', 'm05', 'm06', 'm07', 'm11', 'm17'], FAIL, 120, 1200, None),
             (['m04', 'm08', 'm10'], FAIL, 60, 600, None)],
     'C18': [(['m09'], PLAIN, 400, 4000, None),
             (['m09'], FXL, 150, 1500, None)],
@@ -64,6 +66,23 @@ RULES = {
 }
 
 
+GEN_PROPS = {'C01': PLAIN, 'C02': PLAIN, 'C04': FX, 'C06': PLAIN, 'C07': PLAIN, 'C12': FAIL}
+
+
+def gen_machines(tier, seed):
+    """generated machine definitions (vf/gen_spec.py): two fixed ones in the quick tier, twelve seed-dependent more in thorough"""
+    out = ['gen:101', 'gen:103']
+    if tier == 'thorough':
+        out += ['gen:%d' % (1000 + (seed % 1000) * 20 + k) for k in range(12)]
+    return out
+
+
+def gen_profiles(prop, tier, seed):
+    if prop not in GEN_PROPS:
+        return []
+    return [(gen_machines(tier, seed), GEN_PROPS[prop], 100, 600, None)]
+
+
 def scripts_for(h, seed, n, kw):
     import zlib
     rng = random.Random((zlib.crc32(h.name.encode()) & 0xffff) * 1000003 + seed)
@@ -80,12 +99,12 @@ def run_model_check(prop, tier, seed, profiles=None, extra_filter=None):
     ev = engine.Evidence(prop, tier, seed, level=LEVELS.get(prop, 'exploration'))
     ev.rule = RULES.get(prop, '')
     ev.assumptions = [
-        'machine definitions are sampled (curated corpus), not enumerated',
+        'machine definitions are sampled (curated corpus + seeded generated machines, vf/gen_spec.py), not enumerated',
         'the reference acceptor (vf/model.py) is the oracle for the synchronous semantics; pending-event order is monitored against the C04/C05/C10 rules only',
         'guard values, nested submissions and failpoints are scripted inputs',
     ]
     known = engine.load_known()
-    profiles = profiles or PROFILES[prop]
+    profiles = list(profiles or PROFILES[prop]) + gen_profiles(prop, tier, seed)
     # build everything first
     hs = {}
     for machines, kw, nq, nt, cfgs in profiles:
@@ -138,6 +157,8 @@ def run_model_check(prop, tier, seed, profiles=None, extra_filter=None):
                             print('FOREIGN', m, cfg, sorted(tags), v['rule'], v['expected'][:150], '| got', v['got'][:150])
                             print('   script:', scripts[i][:500])
                             print('   pending:', v.get('pending'))
+                            print('   replay:', engine.write_replay('DBG', {
+                                'property': prop, 'machine': m, 'cfg': cfg, 'switch': h.switch, 'script': scripts[i]}))
                         continue
                     sig = '%s|%s|%s' % (m, v['expected'][:120], v['got'][:120])
                     k = engine.match_known(known, prop, build.FAMNAME[cfg], v['rule'], sig)
